@@ -11,6 +11,7 @@ import (
 	"path/filepath"
 	"strings"
 	"time"
+	"unicode/utf8"
 
 	"github.com/go-shiori/dom"
 	distiller "github.com/markusmobius/go-domdistiller"
@@ -659,16 +660,17 @@ func c11Check(c *eng.Case) *eng.Outcome {
 			}
 			return fullKey(res)
 		}
-		kReader := run(func() (*distiller.Result, error) {
+		reader := func() (*distiller.Result, error) {
 			return distiller.ApplyForReader(strings.NewReader(c.HTML), ora.Opts(cc))
-		})
-		kApply := run(func() (*distiller.Result, error) {
-			doc, err := dom.Parse(strings.NewReader(c.HTML))
-			if err != nil {
-				return nil, err
+		}
+		kReader := run(reader)
+		// the same bytes again: decoding the bytes must not depend on the run
+		for i := 0; i < 2; i++ {
+			if k2 := run(reader); k2 != kReader {
+				o.V("entry:reader-not-repeatable:"+diffField(kReader, k2), "two ApplyForReader calls on the same bytes differ: %s; %s", firstDiff(kReader, k2), c.Get("doc"))
+				break
 			}
-			return distiller.Apply(doc, ora.Opts(cc))
-		})
+		}
 		tmp, err := os.CreateTemp("", "c11-*.html")
 		if err != nil {
 			o.Skipped = "tempfile"
@@ -678,11 +680,24 @@ func c11Check(c *eng.Case) *eng.Outcome {
 		tmp.Close()
 		defer os.Remove(tmp.Name())
 		kFile := run(func() (*distiller.Result, error) { return distiller.ApplyForFile(tmp.Name(), ora.Opts(cc)) })
-		if kReader != kApply {
-			o.V("entry:reader-vs-apply:"+diffField(kApply, kReader), "ApplyForReader differs from Apply(dom.Parse): %s; %s", firstDiff(kApply, kReader), c.Get("doc"))
-		}
 		if kFile != kReader {
 			o.V("entry:file-vs-reader:"+diffField(kReader, kFile), "ApplyForFile differs from ApplyForReader: %s; %s", firstDiff(kReader, kFile), c.Get("doc"))
+		}
+		// "the tree parsed from the same bytes" is well defined when the bytes are valid UTF-8; for
+		// other input the reference parser (dom.Parse) itself picks among equally likely legacy
+		// encodings by goroutine arrival order, so there is no single tree to compare with
+		kApply := kReader
+		if utf8.ValidString(c.HTML) {
+			kApply = run(func() (*distiller.Result, error) {
+				doc, err := dom.Parse(strings.NewReader(c.HTML))
+				if err != nil {
+					return nil, err
+				}
+				return distiller.Apply(doc, ora.Opts(cc))
+			})
+			if kReader != kApply {
+				o.V("entry:reader-vs-apply:"+diffField(kApply, kReader), "ApplyForReader differs from Apply(dom.Parse): %s; %s", firstDiff(kApply, kReader), c.Get("doc"))
+			}
 		}
 		o.Nontrivial = !strings.HasPrefix(kApply, "ERR") && !strings.HasPrefix(kApply, "PANIC")
 		o.Class = "entry"
@@ -723,7 +738,7 @@ func init() {
 		ID:        "C11",
 		DesignRef: "§5 C11",
 		Rule: "(1) map orders: for each corpus document - pagers of 6 pages whose 5 links each follow one of 3 (quick) / 4 (thorough) URL patterns, current page 2|4 / 1..6, both algorithms; S1,S2 with <= 1 / <= 2 insertions over 22 atoms (embeds with several query parameters, multi-label blocks, schema.org item, pagers) x flags {none, all} x both algorithms - a DFS explores every execution with <= 1 non-default iteration order (<= 2 on the pager corpus in thorough) at the range-over-map sites (all permutations for <= 4 keys; descending, rotations, adjacent transpositions above); the canonical result (all fields but TimingInfo) must be identical. " +
-			"(1c) warm vs fresh: every document of both corpora is distilled in the long-lived worker process (after thousands of other calls) and in a fresh process, and the two results must be equal; the same for an evenly spaced subset (every k-th case of the quick enumeration, about 250 per property in quick and 1500 in thorough) of the cases of C04, C06, C16, C17 and C19. (2) histories: every sequence of <= 3 calls from a menu of 13 (document, options, entry point; two pages with the same short <title> and different h1, two pages using one inline style on block and inline elements in either order; including a page that starts with media, nil options and ApplyForURL(nil) through a stub transport), and every ordered pair from a 21-entry menu that distils two documents full of relative references (path-style and query-style pagers) under page URLs sharing hosts, directories and string prefixes, and every ordered pair (thorough: triple) from a 9-entry menu of pages whose OpenGraph/schema.org/IE metadata take different parser paths, runs in a fresh process; additionally, for every ordered pair of 5 page URLs and both algorithms, one URL object is used, overwritten in place by the caller and used again, and the second result must equal that of a freshly parsed equal URL; each call must equal the same call alone in a fresh process; package-variable writes after init are reported. (3) entry points: ApplyForReader == ApplyForFile == Apply(dom.Parse) on all byte-token strings of <= 2 / <= 3 tokens and the corpus. " +
+			"(1c) warm vs fresh: every document of both corpora is distilled in the long-lived worker process (after thousands of other calls) and in a fresh process, and the two results must be equal; the same for an evenly spaced subset (every k-th case of the quick enumeration, about 250 per property in quick and 1500 in thorough) of the cases of C04, C06, C16, C17 and C19. (2) histories: every sequence of <= 3 calls from a menu of 13 (document, options, entry point; two pages with the same short <title> and different h1, two pages using one inline style on block and inline elements in either order; including a page that starts with media, nil options and ApplyForURL(nil) through a stub transport), and every ordered pair from a 21-entry menu that distils two documents full of relative references (path-style and query-style pagers) under page URLs sharing hosts, directories and string prefixes, and every ordered pair (thorough: triple) from a 9-entry menu of pages whose OpenGraph/schema.org/IE metadata take different parser paths, runs in a fresh process; additionally, for every ordered pair of 5 page URLs and both algorithms, one URL object is used, overwritten in place by the caller and used again, and the second result must equal that of a freshly parsed equal URL; each call must equal the same call alone in a fresh process; package-variable writes after init are reported. (3) entry points: ApplyForReader is repeatable (three calls on the same bytes), ApplyForFile == ApplyForReader, and - for valid UTF-8 input, where the reference parse is itself well defined - ApplyForReader == Apply(dom.Parse), on all byte-token strings of <= 2 / <= 3 tokens and the corpus. " +
 			"Non-trivial = an execution met a ranged map with >= 2 keys and a non-default order was explored; histories of >= 2 calls; inputs that parse.",
 		Enumerate:                 c11Enumerate,
 		Check:                     c11Check,
